@@ -189,7 +189,8 @@ def cmd_check(a):
             wall_s=round(time.time() - t0, 2),
             violations=len(violations),
         )
-        with open(os.path.join(evdir, '%s.json' % prop), 'w') as f:
+        # a run restricted with --only is a developer run: it must not replace the evidence of the full check
+        with open(os.path.join(evdir, ('%s.partial.json' if a.only else '%s.json') % prop), 'w') as f:
             json.dump(ev, f, indent=1)
         print('%s tier=%s jobs=%d paths=%d obligations=%d discharged=%d queries=%d known=%d violations=%d exit=%d wall=%.1fs' % (
             prop, tier, len(jobs), tot('paths'), tot('obligations'), tot('discharged'), tot('queries'), len(printed), len(violations), code, time.time() - t0))
